@@ -4,7 +4,7 @@ from __future__ import annotations
 from dataclasses import dataclass, field
 
 from . import ty as T
-from .ty import BOOL, INT, NONE, REAL, STR, Dict, List, Map, Opaque, Opt, Ref, Set, Tuple, Union  # noqa: F401
+from .ty import BOOL, INT, NONE, REAL, STR, Dict, List, Map, Named, Opaque, Opt, Ref, Set, Tuple, Union  # noqa: F401
 
 CONTRACTS: dict[str, "FnContract"] = {}
 CLASSES: dict[str, "ClassSpec"] = {}
